@@ -672,7 +672,8 @@ def _mid_sizes(tier, which):
     lad = gen.ladder(2000, hi, MID_COUNT[tier], tag)
     sizes = set(gen.size_ladder(2000, hi, MID_COUNT[tier], tag))
     sizes.update(gen.ladder(int(0.9 * hi), hi, 2, tag + "-top")[-1:])   # the last tenth of the range is always visited
-    picks = sorted(lad, key=lambda n: _hh(gen.run_seed(), tag, "nb", n))[:MID_NEIGHBOURS[tier]]
+    nb = MID_NEIGHBOURS[tier]   # one hash-chosen ladder length from each of nb consecutive stretches of the ladder: small and large ones
+    picks = [lad[(j * len(lad)) // nb + _hh(gen.run_seed(), tag, "nb", j) % max(1, len(lad) // nb)] for j in range(nb)]
     for s in picks:
         p2 = _next_pow2(s)
         sizes.update([_next_prime(s), p2 if p2 <= hi else p2 // 2, min(hi, _next_smooth(s + 1))])
